@@ -391,6 +391,16 @@ func (c *TermCtx) Bin(op Op, x, y *Term) *Term {
 		if yc && y.c == 1 {
 			return x
 		}
+		if yc && y.c != 0 && y.c&(y.c-1) == 0 && w <= 64 {
+			return c.Bin(OLshr, x, c.Const(w, uint64(bits.TrailingZeros64(y.c))))
+		}
+	case OURem:
+		if yc && y.c == 1 {
+			return c.Const(w, 0)
+		}
+		if yc && y.c != 0 && y.c&(y.c-1) == 0 && w <= 64 {
+			return c.Bin(OAnd, x, c.Const(w, y.c-1))
+		}
 	}
 	return c.mk(op, w, 0, "", x, y)
 }
@@ -446,6 +456,32 @@ func (c *TermCtx) Extract(x *Term, hi, lo int) *Term {
 	case OExtract:
 		ilo := int(x.c & 0xffff)
 		return c.Extract(x.a[0], hi+ilo, lo+ilo)
+	case OAnd, OOr, OXor:
+		// distribute over bitwise operators when that exposes a constant or a shifted-out part
+		a, b := x.a[0], x.a[1]
+		if extractCheap(a, hi, lo) || extractCheap(b, hi, lo) {
+			return c.Bin(x.op, c.Extract(a, hi, lo), c.Extract(b, hi, lo))
+		}
+	case OShl:
+		if k := x.a[1]; k.op == OConst {
+			sh := int(k.c)
+			if hi < sh {
+				return c.Const(w, 0)
+			}
+			if lo >= sh && sh < x.w {
+				return c.Extract(x.a[0], hi-sh, lo-sh)
+			}
+		}
+	case OLshr:
+		if k := x.a[1]; k.op == OConst {
+			sh := int(k.c)
+			if sh < x.w && hi+sh < x.w {
+				return c.Extract(x.a[0], hi+sh, lo+sh)
+			}
+			if lo+sh >= x.w {
+				return c.Const(w, 0)
+			}
+		}
 	}
 	return c.mk(OExtract, w, uint64(hi)<<16|uint64(lo), "", x)
 }
@@ -1019,4 +1055,22 @@ func (t *Term) structHash() {
 		b = hmix(b, x.h2)
 	}
 	t.h1, t.h2 = a, b
+}
+
+// extractCheap: extracting [hi:lo] from t certainly simplifies (constant, or a shift that moves the
+// extracted bits out / maps them to a plain sub-extract, or an extension whose source covers them).
+func extractCheap(t *Term, hi, lo int) bool {
+	switch t.op {
+	case OConst:
+		return true
+	case OShl:
+		if k := t.a[1]; k.op == OConst {
+			return hi < int(k.c) || lo >= int(k.c)
+		}
+	case OLshr:
+		return t.a[1].op == OConst
+	case OZext:
+		return hi < t.a[0].w || lo >= t.a[0].w
+	}
+	return false
 }
